@@ -1,6 +1,7 @@
 """C27 - peer-controlled retained state stays bounded."""
 from .base import Monitor
 from .. import codec as C
+from ..world import OVER_CAP
 
 
 def _get(obj, path):
@@ -74,7 +75,7 @@ class C27(Monitor):
 
     def _limits(self, w, e, s):
         """over-long CONTINUATION chains and oversize header lists must be refused"""
-        if s.snap['closed'] or not s.exact or s.quirk:
+        if s.snap['closed'] or not s.exact or (s.quirk and s.quirk != OVER_CAP):
             return
         f = s.units[0]
         if f.type not in (C.HEADERS, C.PUSH_PROMISE) or f.block_frames is None or f.bad:
